@@ -1,5 +1,86 @@
-(* STUB: Spec layer for viot -- to be written *)
-From Coq Require Import NArith List.
-From ACPI Require Import Lib.Bytes Lib.Sx Spec.Layout.
+(* Spec layer for the VIOT (Virtual I/O Translation table, ACPI 6.5 5.2.31), written from SPEC_NOTES.md A.0 / A.2
+   (table revision 1 and the PCI-range "endpoint start := BDF of the first device" are crate-defined).
+   Case vocabulary (shared with Impl/Viot.v and harness/src/t_viot.rs), component 19; op codes = node type codes:
+     ctor  (oem6 tbl8 orev)
+     ops   (1 first last (104 k))        add_pci_range(PciRange::new(first, last, &handle))           -> reports 0
+           (2 endpoint_id base (104 k))  add_mmio_endpoint(MmioEndpoint::new(id, base, &handle))      -> reports 0
+           (3 dev)                       add_virtio_pci_iommu(VirtIoPciIommu::new(dev))  -> TranslationHandle (reported as EvNum)
+           (4 base)                      add_virtio_mmio_iommu(VirtIoMmioIommu::new(base)) -> TranslationHandle (reported as EvNum)
+     first, last, dev = (segment bus device function)   PciDevice::new (asserts device < 32, function < 8)
+     (104 k) = the TranslationHandle returned by the k-th real op (must be an op 3 or 4)
+   In this Spec a handle reference (104 k) is the offset at which the k-th added node starts in the reference image; it is in
+   the domain only if that node is a translation node (type 3 or 4).  Node offsets are 16 bits wide: a history is in the domain
+   only while every offset of the table, including the offset at which the next node would start (= the table size), is
+   below 2^16 (the hypothesis "length < 2^16" of DESIGN.md C05 for the VIOT). *)
+From Coq Require Import NArith List Bool Arith.
+From ACPI Require Import Lib.Bytes Lib.Sx Spec.Layout Spec.RimtS.
 Import ListNotations.
-Definition viot_spec : tspec := null_spec.
+Open Scope N_scope.
+
+Definition viot_pci_ref (x : sx) : option (N * N) :=
+  match x with
+  | SL [SA seg; SA bus; SA dev; SA fn] => match sp_bdf bus dev fn with Some b => Some (seg, b) | None => None end
+  | _ => None
+  end.
+
+(* the output node of an endpoint must be a translation node *)
+Definition viot_out_ref (n : nat) (rs : sp_starts) (href : sx) : option N :=
+  match sp_lookup n rs href with
+  | Some (off, 3) | Some (off, 4) => Some off
+  | _ => None
+  end.
+
+Definition viot_entry_ref (n : nat) (rs : sp_starts) (o : sx) : option (list N) :=
+  match o with
+  | SL [SA 1; first; last; href] =>
+      (* 1 PCI range (24): 4+4 EndpointStart (crate: BDF of first device), 8+2 SegmentStart, 10+2 SegmentEnd, 12+2 BDFStart,
+         14+2 BDFEnd, 16+2 OutputNode, 18+6 res *)
+      match viot_pci_ref first, viot_pci_ref last, viot_out_ref n rs href with
+      | Some f, Some l, Some out =>
+          lay 24 [L 0 1 1; L 1 1 0; L 2 2 24; L 4 4 (snd f); L 8 2 (fst f); L 10 2 (fst l); L 12 2 (snd f); L 14 2 (snd l);
+                  L 16 2 out; L 18 6 0]
+      | _, _, _ => None
+      end
+  | SL [SA 2; SA ep; SA base; href] =>
+      (* 2 MMIO endpoint (24): 4+4 EndpointID, 8+8 Base, 16+2 OutputNode, 18+6 res *)
+      match viot_out_ref n rs href with
+      | Some out => lay 24 [L 0 1 2; L 1 1 0; L 2 2 24; L 4 4 ep; L 8 8 base; L 16 2 out; L 18 6 0]
+      | None => None
+      end
+  | SL [SA 3; dev] =>
+      (* 3 virtio-pci IOMMU (16): 4+2 Segment, 6+2 BDF, 8+8 res *)
+      match viot_pci_ref dev with
+      | Some d => lay 16 [L 0 1 3; L 1 1 0; L 2 2 16; L 4 2 (fst d); L 6 2 (snd d); L 8 8 0]
+      | None => None
+      end
+  | SL [SA 4; SA base] =>
+      (* 4 virtio-mmio IOMMU (16): 4+4 res, 8+8 Base *)
+      lay 16 [L 0 1 4; L 1 1 0; L 2 2 16; L 4 4 0; L 8 8 base]
+  | _ => None
+  end.
+
+Definition viot_entries_ref (ops : list sx) : option (list (list N)) :=
+  match sp_entries viot_entry_ref ops 48 0 [] [] with
+  | Some es => if 48 + N.of_nat (length (concat es)) <? 2 ^ 16 then Some es else None
+  | None => None
+  end.
+
+(* 36+2 NodeCount, 38+2 NodeOffset=48, 40+8 res; nodes from 48 *)
+Definition viot_image (ctor : sx) (ops : list sx) : option (list N) :=
+  match ctor with
+  | SL [o; t; r] =>
+      match sx_hdr_args o t r, viot_entries_ref ops with
+      | Some h, Some es =>
+          Some (ref_table [86; 73; 79; 84] 1 h (le 2 (N.of_nat (length es)) ++ le 2 48 ++ le 8 0 ++ concat es))
+      | _, _ => None
+      end
+  | _ => None
+  end.
+
+Definition viot_spec : tspec := {|
+  ts_image := viot_image;
+  ts_walk := Some (48%nat, H_u8_x_u16);
+  ts_entries := fun _ ops => option_map (map (fun e => (nth 0 e 0, length e))) (viot_entries_ref ops);
+  ts_counts := fun n => [(36%nat, 2%nat, N.of_nat n); (38%nat, 2%nat, 48)];
+  ts_returns := fun o => match o with SL (SA 3 :: _) | SL (SA 4 :: _) => true | _ => false end
+|}.
